@@ -1,6 +1,7 @@
 package netceptor
 
 import (
+	"io"
 	"context"
 	"crypto/tls"
 	"fmt"
@@ -112,11 +113,38 @@ type verifQStream struct {
 	quic.Stream
 	closed *int
 	wrote  *[]byte
+	in     []byte // what the peer sends, followed by its end of stream (only if eof is set)
+	eof    bool
+	pos    int
+	sctx   context.Context // as in quic-go: cancelled as soon as the write side is closed
+	scancel context.CancelFunc
 }
 
 func (q *verifQStream) Write(b []byte) (int, error) { *q.wrote = append(*q.wrote, b...); return len(b), nil }
-func (q *verifQStream) Read(b []byte) (int, error)  { return 0, fmt.Errorf("closed") }
-func (q *verifQStream) Close() error                { *q.closed++; return nil }
+func (q *verifQStream) Read(b []byte) (int, error) {
+	if q.pos < len(q.in) {
+		n := copy(b, q.in[q.pos:])
+		q.pos += n
+		return n, nil
+	}
+	if q.eof {
+		return 0, io.EOF
+	}
+	return 0, fmt.Errorf("closed")
+}
+func (q *verifQStream) Close() error {
+	*q.closed++
+	if q.scancel != nil {
+		q.scancel()
+	}
+	return nil
+}
+func (q *verifQStream) Context() context.Context {
+	if q.sctx == nil {
+		q.sctx, q.scancel = context.WithCancel(context.Background())
+	}
+	return q.sctx
+}
 
 type verifQConn struct {
 	quic.Connection
@@ -222,6 +250,47 @@ func Verif_C17_open_during_shutdown() {
 	verifapi.Cover("shut-down")
 	_, bound := s.listenerRegistry["svc"]
 	verifapi.Assert("service-name-released", !bound)
+	verifapi.Assert("all-background-activity-stopped", verifapi.Blocked())
+	verifapi.Assert("no-lock-left-held", verifapi.HeldLocks() == 0)
+}
+
+// Verif_C17_close_with_notices_pending: a socket whose owner subscribed to unreachable notices but is
+// slow to take them: two notices for it arrive (the second is still being handed over), then the
+// subscription is given up and the socket closed - at any point within the pre-emption bound. Nothing
+// panics, the name is released, and after shutdown nothing keeps running.
+func Verif_C17_close_with_notices_pending() {
+	n := verifNetceptor("A")
+	s := n.s
+	pc, err := s.ListenPacket("s1")
+	verifapi.Assert("listen-ok", err == nil)
+	done := make(chan struct{})
+	sub := pc.SubscribeUnreachable(done)
+	verifapi.Quiesce()
+	verifapi.ExploreSchedules(verifapi.Tier())
+	for i := 0; i < 2; i++ {
+		um := &UnreachableMessage{FromNode: "A", FromService: "s1", ToNode: "R", ToService: "dead", Problem: ProblemServiceUnknown}
+		md := &MessageData{FromNode: "R", ToNode: "A", FromService: "unreach", ToService: "unreach", HopsToLive: 5, Data: verifapi.JSON(um)}
+		go func() { _ = s.handleMessageData(md) }()
+	}
+	if verifapi.Bool() {
+		verifapi.Quiesce()
+	}
+	close(done)
+	if verifapi.Bool() {
+		verifapi.Quiesce() // the subscription is given up some time before the socket is closed
+	}
+	_ = pc.Close()
+	verifapi.Quiesce()
+	verifapi.ExploreSchedules(0)
+	verifapi.Cover("closed-with-notices-pending")
+	_, bound := s.listenerRegistry["s1"]
+	verifapi.Assert("service-name-released", !bound)
+	s.cancelFunc()
+	verifapi.Quiesce()
+	// the owner finally looks at its subscription: it is ended, not stuck
+	for range sub {
+	}
+	verifapi.Quiesce()
 	verifapi.Assert("all-background-activity-stopped", verifapi.Blocked())
 	verifapi.Assert("no-lock-left-held", verifapi.HeldLocks() == 0)
 }
